@@ -454,6 +454,69 @@ def check_r072(fx, rep, dm):
     rep.floor("R07.2", n, 25, "instructions with an operand-role row")
 
 
+def check_effect_roles(fx, rep, dm):
+    """R07.2 (effects): the stack input that the EVM uses as memory offset / storage key / size / stored value is the one that
+    reaches that argument of the memory or storage model (tables/evm_effects.tsv), at every place the implementation performs the
+    operation (constant-size loop and symbolic branch alike). Roles are traced by pop identity through lets, clones, folds and the
+    `offset + i*32` nodes of the copy loops."""
+    rows = tables.read("evm_effects.tsv")
+    opc = {r[1]: int(r[0], 16) for r in tables.read("evm_opcodes.tsv")}
+    byte_type = {}
+    for a in dm.arms:
+        ts = sorted({t for t, _ in a["ctors"]})
+        for x in a["bytes"]:
+            byte_type[x] = ts[0] if len(ts) == 1 else None
+    exec_body = {i.get("self_adt"): b for i, b in fx.trait_method_bodies("opcode::Opcode", "execute")}
+    RECV = {"Memory": "vm::state::memory::Memory", "Storage": "vm::state::storage::Storage"}
+    n = 0
+    for mn, sink, spec in rows:
+        x = opc.get(mn)
+        b = exec_body.get(byte_type.get(x)) if x is not None else None
+        if b is None:
+            continue
+        root = b["hir"]["value"]
+        pops = _pop_calls(root)
+        for _hop in range(2):
+            # `Call.execute(vm)`: an implementation that is another instruction's, as it stands
+            if pops:
+                break
+            dels = [c for c, _ in F.calls(root) if c.get("k") == "MethodCall" and c["method"] == "execute" and (c.get("recv_ty") or "").replace("&", "").strip() in exec_body]
+            if len(dels) != 1:
+                break
+            b = exec_body[(dels[0].get("recv_ty") or "").replace("&", "").strip()]
+            root = b["hir"]["value"]
+            pops = _pop_calls(root)
+        sites = []
+        for c, cps in F.calls(root):
+            if "::" in sink:
+                owner, meth = sink.split("::")
+                if c.get("k") == "MethodCall" and c["method"] == meth and RECV[owner] in (c.get("recv_ty") or ""):
+                    sites.append(c)
+            elif c.get("k") == "Call" and F.strip_generics(F.callee_def(c) or "").split("::")[-1] == sink:
+                sites.append(c)
+        n += 1
+        if not sites:
+            rep.oblige(False, "R07.2", f"effect:{mn}:{sink}", F.loc(b["span"]), f"{mn} must perform `{sink}`; its implementation does not call it")
+            continue
+        bad = []
+        for c in sites:
+            for part in spec.split(";"):
+                ai, rest = part.split("=")
+                must, _, mustnot = rest.partition(":")
+                arg = c["args"][int(ai)] if int(ai) < len(c["args"]) else None
+                if arg is None:
+                    bad.append(f"argument {ai} is missing")
+                    continue
+                for m_ in must.split("+"):
+                    if int(m_) >= len(pops) or not derives_from(root, arg, pops[int(m_)]):
+                        bad.append(f"argument {ai} of `{sink}` at {F.loc(c['span'])} does not come from stack input mu{m_}")
+                for m_ in [y for y in mustnot.split(",") if y]:
+                    if int(m_) < len(pops) and derives_from(root, arg, pops[int(m_)]):
+                        bad.append(f"argument {ai} of `{sink}` at {F.loc(c['span'])} comes from stack input mu{m_}")
+        rep.oblige(not bad, "R07.2", f"effect:{mn}:{sink}", F.loc(sites[0]["span"]), f"{mn}: " + "; ".join(bad[:3]) + " - the operation reads or writes a different place (or value) than the EVM does", sample={"rule": "R07.2", "mnemonic": mn, "sink": sink, "sites": len(sites), "spec": spec} if n <= 4 else None)
+    rep.floor("R07.2", n, 20, "instructions with a memory / storage effect row")
+
+
 def check_r073(fx, rep, cg, dm):
     exec_body = {i.get("self_adt"): b for i, b in fx.trait_method_bodies("opcode::Opcode", "execute")}
     ea = EffectAnalysis(fx, cg)
@@ -719,6 +782,7 @@ def check(fx, rep, tier):
         return rep.finish("anchor lost", "n/a")
     check_r071(fx, rep, cg, dm)
     check_r072(fx, rep, dm)
+    check_effect_roles(fx, rep, dm)
     check_r073(fx, rep, cg, dm)
     check_r074(fx, rep, cg)
     check_key_agreement(fx, rep, cg)
